@@ -66,12 +66,17 @@ def w_extract(case):
         iname = 'h.ssd' + ('.gz' if case.get('gz') else '')
         root = make_sandbox(iname, data)
         dest = case['dest'].replace('@ROOT@', root)
+        if case.get('deep'):
+            # a destination whose path is longer than NAME_MAX / a typical fixed buffer although every component is legal
+            deep = os.path.join(*[c * case['deep'][1] for c in 'xyzw'[:case['deep'][0]]])
+            os.makedirs(os.path.join(root, 'dest', deep))
+            dest = os.path.join(dest, deep)
         before = snapshot(root)
         argv = ['--file', 'img/' + iname, '--dir', case['cur'], case['cmd'], dest]
         r = dfsrun.dfs(BIN, argv, root)
         res['n'] += 1
         after = snapshot(root)
-        destrel = 'dest'
+        destrel = 'dest' if not case.get('deep') else os.path.normpath(os.path.join('dest', deep))
         bad = None
         if r.sig or r.timeout:
             bad = ('crash', r.status())
@@ -209,6 +214,15 @@ def fam_names(tier):
             yield {'w': 'extract', 'cmd': 'extract-files', 'entries': [[nm.hex(), 0x24, 300]], 'cur': '$', 'dest': 'dest', 'gz': True}
 
 
+def fam_longdest(tier):
+    """destination directories whose path is 100..700 bytes long (components of 60/90/200 characters, 1-4 levels), relative and absolute"""
+    for levels, width in ((1, 60), (2, 60), (3, 90), (4, 60), (2, 200), (3, 200), (1, 250), (3, 83), (3, 84), (3, 85)):
+        for cmd in ('extract-files', 'extract-unused'):
+            for dest in ('dest', '@ROOT@/dest', 'dest/'):
+                yield {'w': 'extract', 'cmd': cmd, 'entries': [[b'OK'.hex(), 0x24, 300], [b'B'.hex(), 0x24, 10]], 'cur': '$', 'dest': dest,
+                       'deep': [levels, width]}
+
+
 def fam_dirs(tier):
     """directory byte every value 0x01-0x7F x names {x, ., /x, ./x, .., a/a} x --dir {$, same byte when printable}"""
     for d in list(range(1, 128)) + [0xAF, 0xAE]:
@@ -225,7 +239,7 @@ def fam_readonly(tier):
             yield {'w': 'readonly', 'ext': e, 'gz': z}
 
 
-FAMILIES = [('R-all-commands-valid-images', fam_readonly), ('D-directory-bytes', fam_dirs), ('N-hostile-names', fam_names)]
+FAMILIES = [('R-all-commands-valid-images', fam_readonly), ('L-long-destination-paths', fam_longdest), ('D-directory-bytes', fam_dirs), ('N-hostile-names', fam_names)]
 
 
 def main(tier, seed):
